@@ -10,7 +10,7 @@ HERE = os.path.dirname(os.path.dirname(os.path.abspath(__file__)))
 
 T = {
  "C01": dict(
-    technique="static analysis: effect/purity summaries, presence-guard table with closure and cycle rules (alternative derivations: both branches interpreted and compared with the defining formula of their configuration, or proved equal by definitional expansion), alias analysis of cached values, protocol order in __getitem__ (ast + dataflow + abstract interpretation)",
+    technique="static analysis: effect/purity summaries (incl. no one-shot iterator stored in the instance), presence-guard table with closure and cycle rules (alternative derivations: both branches interpreted and compared with the defining formula of their configuration, or proved equal by definitional expansion), alias analysis of cached values, protocol order in __getitem__ (ast + dataflow + abstract interpretation)",
     category="other", design="DESIGN.md section 9.2 and section 4 C01, section 3 E1/E2",
     text="Structural theorem: a value is a function of (inputs, options) alone if quantity methods are pure, cached values are never modified, and every `'k' in self.data` guard is history-insensitive. The check establishes these three premises on all methods and all guard sites of the current source.",
     note="Assumes the two formulas of an alternative-derivation guard agree (3+1 identities, frozen table); discretisation error not decided; F5 (rho/rho0/eps cycle) is a listed known finding."),
@@ -60,17 +60,17 @@ T = {
     text="Both Weyl constructions are typed; the Riemann-based formula is antisymmetric in each pair, pair-symmetric and trace-free on index patterns; E/B formulas match reference term lists; Weyl scalars are the NP contractions by role; tetrad Gram-Schmidt steps have the signs required by the metric signature; invariants are the stated polynomials.",
     note="Convergence, numerical orthonormality and tetrad-independence are not decided."),
  "C11": dict(
-    technique="static analysis: ordering provenance in join_chunks, chunk-coverage rule (chunk count = maximum over all keys), storage-order convention table over both readers, restart-selection flow (role-based: latest-first scan that stops at the first hit), name-map table agreement, definite assignment (ast + CFG + def-use)",
+    technique="static analysis: ordering provenance in join_chunks, chunk-coverage rule (chunk count = maximum over all keys), geometry-per-dataset rule (ghost widths / origin not remembered across iterations), storage-order convention table over both readers, restart-selection flow (role-based: latest-first scan that stops at the first hit), name-map table agreement, definite assignment (ast + CFG + def-use)",
     category="other", design="DESIGN.md section 9.2 and section 4 C11",
     text="Structural clauses: every multi-chunk concatenation is ordered by a sort of the origin component paired with its axis; ghost trimming pairs axis i with nghostzones[2-i]; latest-restart selection; name maps mutually consistent; no use of a possibly-unassigned or stale loop variable.",
     note="Equality of returned data with file contents is not decided; ghost width >= 1 assumed."),
  "C12": dict(
-    technique="static analysis: row-index provenance (def-use closure) in cache writer and filler, writer/reader template agreement, separator-guard rule (the '/' between path and file name depends on the path's text only), one-entry-per-iteration column rule, dataset write discipline (ast + def-use)",
+    technique="static analysis: row-index provenance (def-use closure) in cache writer and filler, writer/reader template agreement, separator-guard rule (the '/' between path and file name depends on the path's text only), empty-selection rule (vars=[] means everything on both sides), one-entry-per-iteration column rule, dataset write discipline (ast + def-use)",
     category="other", design="DESIGN.md section 9.2 and section 4 C12",
     text="The index used to pick a row when filing into or filling from the cache is data-dependent on the iteration column of the dictionary it indexes; path/file/dataset-key templates of writer and reader agree.",
     note="Value equality across arbitrary call histories not decided."),
  "C13": dict(
-    technique="static analysis on the canonical form: row-index provenance (def-use), canonical string templates with role-named holes (writer vs reader), path-condition guard/use agreement, separator-guard rule, one-entry-per-iteration column rule, dataset write discipline, alias analysis of the arguments (ast + dataflow)",
+    technique="static analysis on the canonical form: row-index provenance (def-use), canonical string templates with role-named holes (writer vs reader), path-condition guard/use agreement, separator-guard and empty-selection rules, one-entry-per-iteration column rule, dataset write discipline, alias analysis of the arguments (ast + dataflow)",
     category="other", design="DESIGN.md section 9.2 and section 4 C13",
     text="Structural clauses of the save/read round trip decided on all paths.",
     note="HDF5 fidelity (h5py) trusted."),
@@ -95,7 +95,7 @@ T = {
     text="Decided on the expression trees: the numerical and symbolic forms of every bundled solution agree; K_ij is -(1/(2 alpha)) d_t of the module's own gamma_ij (zero shift) for 7 of 9 modules; entry (a, b) of the perturbed-FLRW tensors is built from axes a and b; in the five typable modules every closed form (K, T, rho, p, Ricci and Kretschmann scalars, null expansions) is homogeneous of the scaling weight its role requires.",
     note="Einstein's equations for the matter content and the published closed-form scalars are NOT decided (second derivatives, inverse metrics and simplification of transcendental expressions: computer algebra, not static analysis); the scaling rule is a necessary condition of those clauses only; declared facts: LCDM da/dt = a H, Szekeres dZ/dt = dtZ; 2 modules' K and the modules with dimensionful numerical constants are listed unverified / not typable."),
  "C18": dict(
-    technique="static analysis: token-collision analysis of parser guards vs writer templates with hole alphabets, protocol-order rule, writer/parser round trip of iterations.txt by abstract interpretation of the parser on the writer's line templates, level-representative provenance, regex group-structure agreement, glob-anchor rule (a number read from a globbed path is located by the full literal prefix of the pattern), separator rule, module-state write rule, alias analysis of the merged overview, definite assignment / stale values across restarts (ast, re._parser, dataflow)",
+    technique="static analysis: token-collision analysis of parser guards vs writer templates with hole alphabets, protocol-order rule, writer/parser round trip of iterations.txt by abstract interpretation of the parser on the writer's line templates, level-representative provenance and level-coverage (every level 0..rlmax is merged), regex group-structure agreement, glob-anchor rule (a number read from a globbed path is located by the full literal prefix of the pattern), separator rule, module-state write rule, alias analysis of the merged overview, definite assignment / stale values across restarts (ast, re._parser, dataflow)",
     category="other", design="DESIGN.md section 9.2 and section 4 C18",
     text="Format-level clauses decided for all names: no parser guard token can occur in a free hole of another line's template; the restart header is written first; regex groups used exist, are digits where converted and are tested when optional; every catalogue line parses back, key by key and field by field, to what was stored in memory next to it; the component representing a refinement level is chosen among that level's datasets; the key separator is outside the name alphabet; no scan result is cached in module state; per-restart entries are not updated through the merged overview; no stale value crosses restarts.",
     note="That a scan reports what is on disk is not decided. The round trip of iterations.txt is decided for the seven line templates (lists instantiated with 0/2 generic elements, holes assumed free of the separators, which the token-collision rule establishes)."),
